@@ -45,8 +45,12 @@ def _expand_branch(mol_graph, current, anchor, recipe):
     for bdx, (n_mon, attributes, order) in enumerate(recipe):
         if bdx == 0:
             anchor = current
-        for _ in range(0, n_mon):
+        for idx in range(0, n_mon):
             mol_graph.add_node(current, **attributes)
+            # the bond order belongs to the bond into the first copy of a
+            # multiplied node; its copies are connected by single bonds
+            if idx > 0:
+                order = 1
             mol_graph.add_edge(prev_node, current, order=order)
 
             prev_node = current
